@@ -8,17 +8,19 @@ INFO = dict(
             'fiber_manager_do_maintenance', 'mpsc_fifo_push', 'mpsc_fifo_trypop'],
  stubs=['contract kernel (see C03)'],
  assumptions=['assume-guarantee: the runtime contract of C01/C02 holds for yield/schedule', 'x86-TSO mapping of atomics; -O1 IR of clang-14'],
- bounds='count 2 (quick) and 3 (thorough), count fibers, 2 back-to-back rounds; spin bound 1; all interleavings (SC)',
+ bounds='inductive step for count 3 (one wait call from an arbitrary arrival count incl. 2^32 / 2^64 boundaries); count 2 one round (SC, TSO), count 1 two rounds; thorough stretch: count 2 x 2 rounds, count 3 programs',
  outside='counts > 3, more than 2 rounds, fewer fibers than count')
 
 
 def plan(tier, ctx):
     src = ['fiber_barrier.c', 'fiber_mutex.c'] + fvm.KERNEL_SRCS
     j = []
+    j += fvm.config('C12', 'barrier_step3', 'barrier_step.c', 3, 4, 'sc', srcs=src, spec=fvm.kspec(3), bounds='count 3: one wait call from an arbitrary arrival count (small, around 2^32, around 2^64) with the earlier arrivers of the round queued', timeout=1200)
     j += fvm.config('C12', 'barrier_2x1', 'barrier.c', 2, 4, 'sc', srcs=src, defines=['NF=2', 'ROUNDS=1'], spec=fvm.kspec(2), bounds='count 2, 1 round', timeout=1200)
     j += fvm.config('C12', 'barrier_2x1', 'barrier.c', 2, 4, 'tso', srcs=src, defines=['NF=2', 'ROUNDS=1'], spec=fvm.kspec(2), bounds='count 2, 1 round, x86-TSO', timeout=1800)
     j += fvm.config('C12', 'barrier_1x2', 'barrier.c', 1, 4, 'sc', srcs=src, defines=['NF=1', 'ROUNDS=2'], spec=fvm.kspec(1), bounds='count 1, 2 rounds (every wait is the serial one)', timeout=600)
     if tier == 'thorough':
+        j += fvm.config('C12', 'barrier_2x2_s0', 'barrier.c', 2, 3, 'sc', srcs=src, defines=['NF=2', 'ROUNDS=2'], spec=fvm.kspec(2, spin=0), bounds='count 2, 2 rounds, spin bound 0', timeout=3600, required=False)
         j += fvm.config('C12', 'barrier_3x1_wrap', 'barrier.c', 3, 5, 'sc', srcs=src, defines=['NF=3', 'ROUNDS=1', 'COUNTER_START'], spec=fvm.kspec(3), bounds='count 3, 1 round, arrival counter starts at a symbolic round boundary around 2^32', timeout=3600, required=False, mem_gb=24)
         j += fvm.config('C12', 'barrier_3_reenter', 'barrier.c', 3, 4, 'sc', srcs=src, defines=['NF=3', 'ROUNDS=2', 'ASYM'], spec=fvm.kspec(3), bounds='count 3; two fibers wait once, one re-enters the barrier immediately', timeout=3000, required=False, mem_gb=24)
         j += fvm.config('C12', 'barrier_2x2', 'barrier.c', 2, 4, 'sc', srcs=src, defines=['NF=2', 'ROUNDS=2'], spec=fvm.kspec(2), bounds='count 2, 2 rounds', timeout=3600, required=False)
